@@ -36,7 +36,9 @@ def finish(ctx, merged):
             if k.startswith("auer_het") or (k.startswith("useful") and stepmc.family(alg) != "paveba"):
                 continue
             per_alg.append(f"{alg}:{k}")
-    missing = [k for k in need + per_alg if not c.get(k)]
+    from checks import onestep
+    sens = ["sens3:" + k for k in onestep.REF_MUTANTS]
+    missing = [k for k in need + per_alg + sens if not c.get(k)]
     if missing:
         return {"harness_error": f"vacuous: decision classes empty: {missing}"}
     return {}
